@@ -80,6 +80,8 @@ def run_one_path(spec, tier, prefix, seed, known_active, deadline_s=120.0, timeo
     interp.symdict_functions = set(getattr(sys.modules[spec.module], "SYMDICT_FUNCTIONS", []))
     _install_stubs(interp, getattr(sys.modules[spec.module], "STUBS", []))
     eng = Engine(prefix=prefix, timeout_ms=timeout_ms, seed=seed)
+    if E.XCHECK["rate"] < 0:
+        E.XCHECK["rate"] = 0.003 if tier == "quick" else 0.02
     E.set_current(eng)
     S = SymCtx(eng, interp, known_active)
     interp.exc_stack = []
@@ -252,7 +254,8 @@ def _worker_task(task):
                         "queries": r.queries, "solver_s": r.solver_s, "decisions": len(r.decisions),
                         "covers": sorted(r.covers), "violations": r.violations, "knowns": r.knowns,
                         "error": r.error, "assumes": r.assumes, "unwind_hits": r.unwind_hits, "notes": r.notes,
-                        "unknowns": r.unknowns, "validated": None, "sample": None}
+                        "unknowns": r.unknowns, "validated": None, "sample": None,
+                        "xchecked": r.xchecked, "xagree": r.xagree, "xunknown": r.xunknown}
                 # path-witness validation against native execution
                 if r.witness is not None and r.status == "ok" and validate_budget > 0 and spec.validate:
                     if rnd.random() < validate_budget:
@@ -328,6 +331,9 @@ class Summary:
         self.models = set()
         self.notes = set()
         self.unknowns = 0
+        self.xchecked = 0
+        self.xagree = 0
+        self.xunknown = 0
         self.wall_s = 0.0
         self.incomplete = None
         self.bounds = spec.bounds[tier]
@@ -411,6 +417,9 @@ def _merge_path(summ, r):
     summ.covers.update(r["covers"])
     summ.unwind_hits += r["unwind_hits"]
     summ.unknowns += r["unknowns"]
+    summ.xchecked += r.get("xchecked", 0)
+    summ.xagree += r.get("xagree", 0)
+    summ.xunknown += r.get("xunknown", 0)
     summ.assumes.update(r["assumes"])
     summ.notes.update(r["notes"])
     for v in r["violations"]:
